@@ -96,6 +96,7 @@ func neverBeforeDeep(c *eng.Ctx, root *ssa.Function, first, then eng.Matcher, fn
 }
 
 func runC01(c *eng.Ctx) {
+	decodedRecordOwnsItsStrings(c)
 	p := c.P
 	replayReinstallsStoreLogs(c)
 
